@@ -5,6 +5,7 @@
 pub mod bits;
 pub mod chunk;
 pub mod container;
+pub mod entropy;
 pub mod gen;
 pub mod headers;
 pub mod src;
